@@ -7,7 +7,7 @@ set -u
 name=$1; patch=$2; demo=$3; existing=$4; demoargs=$5
 out=/verif/seeded/$name; mkdir -p "$out"
 export CARGO_TARGET_DIR=/tmp/confirm_target CARGO_NET_OFFLINE=true
-cd /tmp/confirm && git checkout -q -- . && git clean -fdq -e target
+cd /tmp/confirm && git checkout -q -- . && git clean -fdq -e target && git checkout -q --detach $(git -C /repo rev-parse HEAD)
 git apply "$patch" || { echo "patch does not apply" | tee "$out/confirm.txt"; exit 2; }
 {
 echo "### (1) existing tests WITH the change: cargo test $existing"
